@@ -2,6 +2,8 @@ import Driver.ReplayD
 import Driver.MessageD
 import GoSSE.Gen.Replay
 import GoSSE.Gen.Unmarshal
+import GoSSE.Gen.Write
+import GoSSE.Proofs.GenEquivWrite
 /-!
 Ops that run the *translated* replayers (`GoSSE/Gen/Replay.lean`: `FiniteReplayer.Put/Replay`, `ValidReplayer.Put/GC/Replay`
 with `ensureID`, `findIDInQueue`, `queue.each` …, regenerated from /repo's replay.go on every run) over whole histories:
@@ -196,9 +198,45 @@ def gut (args : List String) : String × String :=
     | .ok r => (s!"{errClassG r.1} | {Driver.MessageD.showMsg (modelMsg r.2)}", hs)
   | _ => ("bad-args", "bad-args")
 
+/-! ### `Message.WriteTo`, `MarshalText`, `String` as translated -/
+
+/-- the fault-injecting writer of `WT`, as a writer of the translated code: state = (calls so far, bytes accepted, a
+Write failed) -/
+def faultWriterG (k : Option Nat) (j : Nat) (e : Bool) : GoRT.Writer (Nat × Bytes × Bool) :=
+  { st := (0, [], false),
+    write := fun st p =>
+      if some st.1 == k then
+        let fail := e || j < p.length
+        (((min j p.length : Nat) : Int), (if fail then some "FAULT" else none), (st.1 + 1, st.2.1 ++ p.take (min j p.length), st.2.2 || fail))
+      else ((p.length : Int), none, (st.1 + 1, st.2.1 ++ p, st.2.2)) }
+
+/-- `GWT <msg> <k|-> <j> <e>`: the translated `WriteTo` against the `WT` writer, then the translated `MarshalText` and
+`String`; specification column = the hand-written model -/
+def gwt (args : List String) : String × String :=
+  match Driver.MessageD.dropGo args with
+  | [ms, k, j, e] =>
+    let m := Model.build (Driver.MessageD.parseMsg ms)
+    let w := Driver.MessageD.faultWriter k.toNat? (j.toNat?.getD 0) (boolOf e)
+    let hand := s!"{Driver.MessageD.showWR (m.writeTo w 0)} | {hex m.marshalText} | {hex m.string}"
+    let g := GenEquiv.toGenMsg m
+    let fuel := m.chunks.length + 20
+    let r : GoM String := do
+      let a ← Gen.Message_WriteTo fuel g (faultWriterG k.toNat? (j.toNat?.getD 0) (boolOf e))
+      let b ← Gen.Message_MarshalText fuel g
+      let c ← Gen.Message_String fuel g
+      let st := a.2.2.2.st
+      let es := match a.2.1 with | none => "nil" | some "FAULT" => "FAULT" | some x => "OTHER(" ++ x ++ ")"
+      let me := match b.2.1 with | none => hex b.1 | some x => "ERR(" ++ x ++ ")"
+      pure s!"{a.1} | {es} | {hex st.2.1} | {st.1} | {if st.2.2 then 1 else 0} | {me} | {hex c.1}"
+    match r with
+    | .error f => (showFault f, hand)
+    | .ok s => (s, hand)
+  | _ => ("bad-args", "bad-args")
+
 def handle (op : String) (args : List String) : Option (String × String) :=
   match op with
   | "GUT" => some (gut args)
+  | "GWT" => some (gwt args)
   | "GFINITE" => some (gfinite args)
   | "GVALID" => some (gvalid args)
   | _ => none
